@@ -1,5 +1,5 @@
 """C13 - stored values and compound keys round-trip.
-Proof: coq/theories/Properties/C13.v (models Codec/{Varint,CompoundKey,FieldCodec,Containers,Persist,Getters}.v).
+Proof: coq/theories/Properties/C13.v (models Codec/{Varint,CompoundKey,FieldCodec,Containers,Persist,Getters,CheckerRepr}.v).
 Correspondence: the extracted model against boltz.TypedBucket over a real bbolt database (values
 read back in a later transaction AND the raw bucket bytes), boltz.PersistContext over chains of real
 parent/child stores (contexts derived by GetParentContext / WithFieldOverrides), boltz.EncodeStringSlice /
@@ -16,7 +16,7 @@ import os
 import vlib
 
 PID = "C13"
-FILES = ["theories/Properties/C13.v", "theories/Examples/C13Examples.v", "theories/Examples/C13PersistExamples.v"]
+FILES = ["theories/Properties/C13.v", "theories/Examples/C13Examples.v", "theories/Examples/C13PersistExamples.v", "theories/Examples/C13CheckerReprExamples.v"]
 MARKER = b"__list__size__36484231-110c-4767-afe2-01b6e3db107a"
 
 
@@ -116,24 +116,66 @@ def has_marker_key(v):
     return False
 
 
+REPRS = {
+    "mn": "a nil boltz.MapFieldChecker (var m boltz.MapFieldChecker: a nil map inside the FieldChecker interface)",
+    "ma": "an allocated boltz.MapFieldChecker",
+    "pm": "a *boltz.MapFieldChecker",
+    "em": "a struct embedding boltz.MapFieldChecker",
+    "pp": "a pointer-receiver FieldChecker implementation",
+    "pn": "a typed nil pointer whose IsUpdated answers false on the nil receiver",
+    "sv": "a struct-value FieldChecker implementation",
+    "sl": "a slice-typed FieldChecker implementation",
+    "sn": "a nil slice of a slice-typed FieldChecker implementation",
+    "fn": "a func-typed FieldChecker implementation",
+    "f0": "a nil func of a func-typed FieldChecker implementation",
+    "mb": "a map[string]bool-typed FieldChecker implementation",
+}
+
+
+class Chk:
+    """a field checker as the property sees it: the predicate 'IsUpdated(name)' of the value handed to the library,
+    whatever Go value carries it (Codec/CheckerRepr.v: a nil map / typed nil pointer / nil slice / nil func inside the
+    interface is NOT the nil interface - it selects what its IsUpdated answers, a nil map nothing)"""
+
+    def __init__(self, fn, desc, names=None):
+        self.fn = fn
+        self.desc = desc
+        if names is not None:
+            self.names = names       # MapFieldChecker.ToSlice is observed against them
+
+    def __call__(self, f):
+        return self.fn(f)
+
+
+def cdesc(chk):
+    return chk.desc if chk is not None else "the nil interface: no restriction"
+
+
+def names_desc(names):
+    return "selecting no field" if not names else "selecting %s" % sorted(names)[:6]
+
+
 def parse_checker(s):
     k = s.next()
     if k == "*":
         return None
     if k == "c":
         names = set(unhex(s.next()) for _ in range(s.int()))
-        chk = lambda f: f in names  # noqa
-        chk.names = names       # MapFieldChecker.ToSlice is observed against them
-        return chk
-    if k == "o":
+        return Chk(lambda f: f in names, "boltz.MapFieldChecker %s" % names_desc(names), names)
+    if k == "r":
+        repr_ = s.next()
+        names = set(unhex(s.next()) for _ in range(s.int()))
+        return Chk(lambda f: f in names, "%s %s" % (REPRS[repr_], names_desc(names)), names if repr_ in ("mn", "ma") else None)
+    if k in ("o", "on"):
         mp = {}
-        for _ in range(s.int()):
-            a, b = unhex(s.next()), unhex(s.next())
-            mp.setdefault(a, b)
+        if k == "o":
+            for _ in range(s.int()):
+                a, b = unhex(s.next()), unhex(s.next())
+                mp.setdefault(a, b)
         inner = parse_checker(s)
         if inner is None:
             return None
-        return lambda f: inner(mp.get(f, f))
+        return Chk(lambda f: inner(mp.get(f, f)), "MappedFieldChecker (%s) around %s" % ("nil mappings" if k == "on" else "%d mappings" % len(mp), inner.desc))
     raise ValueError("bad checker token %r" % k)
 
 
@@ -381,8 +423,10 @@ def scenario_oracle(case, impl_line):
                 last[name] = (kind, val)
         for key in set(state) | set(after):
             if key not in touched and state.get(key) != after.get(key):
-                bad.append(("checker-frame", "field %r is not selected by the checker but its stored bytes changed" % key))
+                bad.append(("checker-frame", "field %r is not selected by the checker (%s) but its stored bytes changed" % (key, cdesc(chk))))
         state = after
+    if any(k == "checker-frame" for k, _ in bad):
+        return bad      # which call wrote a field last is only known while the frame holds
     obs = {}
     while idx < len(secs):
         sec = secs[idx]
@@ -451,6 +495,8 @@ def parse_persist_scenario(case):
                     a, b = unhex(s.next()), unhex(s.next())
                     mp.setdefault(a, b)
                 stmts.append(("w", slot, mp))
+            elif k == "wn":
+                stmts.append(("w", s.int(), {}))
             elif k == "s":
                 slot = s.int()
                 stmts.append(("s", slot, parse_xop(s, create, ent_id)))
@@ -466,7 +512,7 @@ def with_overrides(chk, mp):
     """PersistContext.WithFieldOverrides: a nil checker stays nil"""
     if chk is None:
         return None
-    return lambda f: chk(mp.get(f, f))
+    return Chk(lambda f: chk(mp.get(f, f)), "WithFieldOverrides (%d mappings) on %s" % (len(mp), chk.desc))
 
 
 def persist_writes(chain, chk, stmts):
@@ -557,12 +603,12 @@ def persist_oracle(case, impl_line):
                 seen.add(field)
                 if lvl is not None and lvl > 0:
                     bad.append(("checker-frame-parent-context",
-                                "a persist restricted by a field checker changed field %r in the part of the entity that belongs to ancestor store #%d "
+                                "a persist restricted by a field checker (%s) changed field %r in the part of the entity that belongs to ancestor store #%d "
                                 "(written through the context derived by GetParentContext) although no call the checker selects names it"
-                                % (field[-1], lvl)))
+                                % (cdesc(chk), field[-1], lvl)))
                 else:
-                    bad.append(("checker-frame", "stored node %s is not named by any call the checker selects but its stored bytes changed"
-                                % "/".join(repr(k) for k in field)))
+                    bad.append(("checker-frame", "stored node %s is not named by any call the checker (%s) selects but its stored bytes changed"
+                                % ("/".join(repr(k) for k in field), cdesc(chk))))
             for addr, lvl, kind, val in writes:
                 last[addr] = (lvl, addr[-1], val)
                 for other in [a for a in last if a != addr and (a[:len(addr)] == addr or addr[:len(a)] == a)]:
@@ -616,10 +662,10 @@ def main(argv):
     c = vlib.Check(PID, argv)
     c.cov["trusted_base"] = [
         "Coq 8.16.1 kernel (coqc; coqchk in the thorough tier); vm_compute in Examples only; no axioms",
-        "hand-written models Codec/Varint.v, CompoundKey.v, FieldCodec.v, Containers.v, Persist.v, Getters.v of boltz/encode.go, boltz/typed_bucket.go, boltz/base.go PersistContext, "
+        "hand-written models Codec/Varint.v, CompoundKey.v, FieldCodec.v, Containers.v, Persist.v, Getters.v, CheckerRepr.v of boltz/encode.go, boltz/typed_bucket.go, boltz/base.go PersistContext, "
         "encoding/binary varints, time.Time (Un)MarshalBinary and of a bbolt bucket (sorted key -> value | sub-bucket; Put/CreateBucket error rules)",
         "extraction (ExtrOcamlBasic only) + extraction/c13_driver.ml + drv_common.ml",
-        "Go harness cmd/storageharness/c13.go, c13gen.go, c13x.go (generators, bucket walker, store chains) and this comparison / oracle",
+        "Go harness cmd/storageharness/c13.go, c13gen.go, c13x.go, c13r.go (generators, bucket walker, store chains, checker representations) and this comparison / oracle",
         "bbolt (the store the values are written to and read from; compared, not verified)",
     ]
     c.assumptions = [
@@ -743,7 +789,9 @@ def main(argv):
                      "multi-phase histories (TypedBucket and PersistContext setters, mapped checkers, containers nested <= 4) and hostile ones (crafted raw buckets, marker key, "
                      "bad keys); after every phase the raw bucket bytes are walked in a later transaction and compared with the model byte for byte, then every getter on every field "
                      "(incl. the *WithDefault / *OrDefault / *OrError getters, IsStringListEmpty, GetParent), ForEachTypedBucket on the entity and TypedBucket.Copy of it (whole, filtered, overlaid); "
-                     "MapFieldChecker.ToSlice of every plain checker. "
+                     "MapFieldChecker.ToSlice of every plain checker. The checker of a phase is handed to the library in every representation: nil interface, nil / allocated "
+                     "boltz.MapFieldChecker, *MapFieldChecker, embedding struct, pointer-receiver type and its typed nil pointer, struct value, slice / func / map[string]bool types "
+                     "(nil and non-nil), MappedFieldChecker wrappers nested to any depth with allocated / nil / shared mapping tables (deterministic block of 581 cases + 40 % of all random selections). "
                      "X: persists through boltz.PersistContext over chains of 1-4 real stores (child bucket nested 1-3 keys below the parent's, sibling buckets): the context a store builds "
                      "for Create/Update, contexts derived by GetParentContext (also re-derived, also on the root store) and WithFieldOverrides before/after deriving, every PersistContext setter "
                      "incl. SetLinkedIds, IsCreate-dependent values, ctx.Id, ctx.Tx(); all checker subsets over the fields of two and three stores, random multi-phase programs; the raw bytes of the "
